@@ -482,7 +482,14 @@ def nauty(rep):
     for rel in TWINS_FILES:
         cn = rep.f(rel, GC + "_canon_nauty")
         rets = returns_of(cn.node)
-        rep.ob("O8.1", "R14", cn, bool(rets) and norm(rets[-1].value) == f"self.nauty.canonical_form({cn.params[1]})", rets[-1] if rets else "return", "the nauty back-end returns the exact canonical form")
+        okn = False
+        if rets and isinstance(rets[-1].value, ast.Call) and norm(rets[-1].value.func) == "self.nauty.canonical_form" and [norm(a_) for a_ in rets[-1].value.args] == [cn.params[1]]:
+            # the search is exact only when it is unbounded: no depth budget (or the explicit "no budget" None); any other argument changes what comes back
+            kws_ = {k_.arg: k_.value for k_ in rets[-1].value.keywords}
+            okn = set(kws_) <= {"max_depth"} and all(is_const(v_, None) for v_ in kws_.values())
+            if not okn and set(kws_) <= {"max_depth"} and not any(isinstance(v_, ast.Constant) for v_ in kws_.values()):
+                okn = None   # a budget that is not a literal: cannot tell whether it is ever set
+        rep.ob("O8.1", "R14", cn, okn, rets[-1] if rets else "return", "the nauty back-end returns the exact canonical form (unbounded search)")
 
 
 # ------------------------------------------------------------------ O8.5
